@@ -515,6 +515,8 @@ impl<T: Sync + Send + 'static> Nucleo<T> {
                 if finished && should_notify.load(atomic::Ordering::Relaxed) {
                     notify()
                 }
+                #[cfg(nucleo_verif)]
+                crate::verif::hit("run.done", 0, [finished as u64, 0, 0, 0]);
             })
         }
         Status { changed, running }
